@@ -90,6 +90,9 @@ var cursorModes = []string{"seq", "slot", "get"}
 
 // read advances the cursor by at most k slots (k < 0: to the end, including the end-of-block check).
 func (c *cursor) read(t failer, who string, k int) int {
+	if c.blk.bad != "" {
+		return c.readBad(t, who, k)
+	}
 	start, n := int(c.blk.start), c.blk.n()
 	cnt := 0
 	for !c.done && (k < 0 || cnt < k) {
@@ -326,12 +329,20 @@ func (p prefixFailer) Fatalf(format string, args ...any) { p.t.Fatalf(p.prefix+f
 
 func (h *tsdHistory) bindDecoder(t *rapid.T, o *owner) {
 	sb := h.stored[rapid.IntRange(0, len(h.stored)-1).Draw(t, h.l("oblk"))]
-	resetDecoder(o.dec, sb.blk, sb.data, sb.withTime, rapid.Bool().Draw(t, h.l("oviaRange")))
-	if int(o.dec.StartTime()) != int(sb.blk.start) || int(o.dec.EndTime()) != sb.blk.end() {
-		t.Fatalf("%s: decoder range [%d,%d], block [%d,%d]", o.who(), o.dec.StartTime(), o.dec.EndTime(), sb.blk.start, sb.blk.end())
+	if len(h.damaged) > 0 && rapid.IntRange(0, 4).Draw(t, h.l("obad")) == 0 {
+		// the owner is given a damaged block: it reads it like any other, nothing is compared
+		sb = h.damaged[rapid.IntRange(0, len(h.damaged)-1).Draw(t, h.l("obadBlk"))]
+		h.classes["owner-bound-to-damaged-block"]++
 	}
-	if err := o.dec.Error(); err != nil {
-		t.Fatalf("%s: decoder error after reset: %v", o.who(), err)
+	resetDecoder(o.dec, sb.blk, sb.data, sb.withTime, rapid.Bool().Draw(t, h.l("oviaRange")))
+	h.noteBinding(o.dec, sb.blk)
+	if sb.blk.bad == "" { // (a damaged block may be refused by Reset: header only)
+		if int(o.dec.StartTime()) != int(sb.blk.start) || int(o.dec.EndTime()) != sb.blk.end() {
+			t.Fatalf("%s: decoder range [%d,%d], block [%d,%d]", o.who(), o.dec.StartTime(), o.dec.EndTime(), sb.blk.start, sb.blk.end())
+		}
+		if err := o.dec.Error(); err != nil {
+			t.Fatalf("%s: decoder error after reset: %v", o.who(), err)
+		}
 	}
 	o.cur = &cursor{dec: o.dec, blk: sb.blk, mode: rapid.SampledFrom(cursorModes).Draw(t, h.l("omode"))}
 	sb.reads++
@@ -390,6 +401,7 @@ func (h *tsdHistory) readerNext(t failer, o *owner, mode string) {
 		}
 	}
 	o.cur = &cursor{dec: dec, blk: blk, mode: mode}
+	h.noteBinding(dec, blk)
 	o.field++
 }
 
@@ -533,6 +545,14 @@ func (h *tsdHistory) ownerActions() map[string]func(*rapid.T) {
 				encoding.ReleaseTSDEncoder(enc)
 				h.giveUp(enc)
 				h.poolPuts++
+			}
+			if rapid.IntRange(0, 5).Draw(t, h.l("wbad")) == 0 {
+				// the field's bytes are damaged (the framing of the stream stays intact): the reader's pooled
+				// decoder goes over it and must read the following fields exactly
+				var kind string
+				data, kind = damageBytes(t, h.l("wdmg"), data, 0)
+				blk = &tsdBlock{start: blk.start, mask: blk.mask, vals: blk.vals, vidx: blk.vidx, bad: kind}
+				h.classes["damaged-field-in-stream"]++
 			}
 			w.w.WriteField(id, data)
 			w.ids, w.blks = append(w.ids, id), append(w.blks, blk)
